@@ -1025,6 +1025,37 @@ out:
 }
 
 /**
+ * Copy a -1 terminated list of fragment indexes, keeping the first
+ * occurrence of every index.
+ *
+ * @param list - -1 terminated list supplied by the caller
+ * @param num_fragments - k + m of the instance; every index must be below it
+ * @param distinct - output, room for num_fragments + 1 entries
+ * @return 0 on success, -EINVALIDPARAMS if an index is out of range
+ */
+static int copy_distinct_idxs(const int *list, int num_fragments, int *distinct)
+{
+    int i, j, n = 0;
+
+    for (i = 0; list[i] > -1; i++) {
+        if (list[i] >= num_fragments) {
+            return -EINVALIDPARAMS;
+        }
+        for (j = 0; j < n; j++) {
+            if (distinct[j] == list[i]) {
+                break;
+            }
+        }
+        if (j == n) {
+            distinct[n++] = list[i];
+        }
+    }
+    distinct[n] = -1;
+
+    return 0;
+}
+
+/**
  * Return a list of lists with valid rebuild indexes given
  * a list of missing indexes.
  *
@@ -1045,6 +1076,8 @@ int liberasurecode_fragments_needed(int desc,
                                     int *fragments_needed)
 {
     int ret = 0;
+    int rebuild_idxs[EC_MAX_FRAGMENTS + 1];
+    int exclude_idxs[EC_MAX_FRAGMENTS + 1];
 
     ec_backend_t instance = liberasurecode_backend_instance_get_by_desc(desc);
     if (NULL == instance) {
@@ -1070,28 +1103,24 @@ int liberasurecode_fragments_needed(int desc,
     }
 
     /* Every listed index must name a fragment of this instance: the
-     * backends use them as bit positions and array indexes */
-    {
-        int i;
-        int n = instance->args.uargs.k + instance->args.uargs.m;
-        for (i = 0; fragments_to_reconstruct[i] > -1; i++) {
-            if (fragments_to_reconstruct[i] >= n) {
-                ret = -EINVALIDPARAMS;
-                goto out_error;
-            }
-        }
-        for (i = 0; fragments_to_exclude[i] > -1; i++) {
-            if (fragments_to_exclude[i] >= n) {
-                ret = -EINVALIDPARAMS;
-                goto out_error;
-            }
-        }
+     * backends use them as bit positions and array indexes.  They also size
+     * their scratch lists for distinct indexes, so an index the caller
+     * repeated is handed on once. */
+    ret = copy_distinct_idxs(fragments_to_reconstruct,
+            instance->args.uargs.k + instance->args.uargs.m, rebuild_idxs);
+    if (ret < 0) {
+        goto out_error;
+    }
+    ret = copy_distinct_idxs(fragments_to_exclude,
+            instance->args.uargs.k + instance->args.uargs.m, exclude_idxs);
+    if (ret < 0) {
+        goto out_error;
     }
 
     /* call the backend fragments_needed function passing it desc instance */
     ret = instance->common.ops->fragments_needed(
             instance->desc.backend_desc,
-            fragments_to_reconstruct, fragments_to_exclude, fragments_needed);
+            rebuild_idxs, exclude_idxs, fragments_needed);
 
 out_error:
     return ret;
